@@ -142,7 +142,9 @@ def r1_merge_chain(ctx):
         okc = need_calls <= calls
         # `<profile>.yml`: the literal may be one piece of the format string or split around a named constant (`"{}.{EXT}"`, EXT = "yml")
         yml = lambda: any(s.endswith('.yml') for s in strs) or any(s == 'yml' for s in strs)
-        oks = all((yml() if x == '.yml' else any(s == x for s in strs)) for x in need_strs)
+        # `base.yml` in one piece, or put together from the stem `base` and the extension by the helper that also names the profile file
+        whole = lambda x: any(s == x for s in strs) or (x == 'base.yml' and any(s == 'base' for s in strs) and yml())
+        oks = all((yml() if x == '.yml' else whole(x)) for x in need_strs)
         extra = ''
         if name == 'base file':
             oks = oks and not any(s.endswith('.yml') and s != 'base.yml' for s in strs) and 'core::convert::AsRef::as_ref' not in calls
